@@ -166,14 +166,29 @@ func c29Gen(rt *rapid.T) c29Case {
 
 // ---------------------------------------------------------------- ABIs
 
+// c29Served passes the ABI through its JSON form, which is how clients (the
+// CLI, other-language SDKs) obtain it from the getABI endpoint.
+func c29Served(a abi.ABI, err error) (abi.ABI, error) {
+	if err != nil {
+		return a, err
+	}
+	doc, err := json.Marshal(a)
+	if err != nil {
+		return a, err
+	}
+	var out abi.ABI
+	err = json.Unmarshal(doc, &out)
+	return out, err
+}
+
 func c29MorpheusABI() (abi.ABI, error) {
-	return abi.NewABI(mvm.ActionParser.GetRegisteredTypes(), mvm.OutputParser.GetRegisteredTypes())
+	return c29Served(abi.NewABI(mvm.ActionParser.GetRegisteredTypes(), mvm.OutputParser.GetRegisteredTypes()))
 }
 
 func c29TestKitABI() (abi.ABI, error) {
 	p := chaintest.NewTestParser()
 	// the test kit registers TestOutput in a local output registry it does not return
-	return abi.NewABI(p.ActionRegistry.GetRegisteredTypes(), []codec.Typed{&chaintest.TestOutput{}})
+	return c29Served(abi.NewABI(p.ActionRegistry.GetRegisteredTypes(), []codec.Typed{&chaintest.TestOutput{}}))
 }
 
 const c29PermsField = "specifiedStateKeyPermissions"
